@@ -74,6 +74,8 @@ class Net(object):
                 link = {'log': log, 'addr': tuple(addr), 'done': threading.Event(), 'error': None}
                 self._tap = Tap(a, log, 'R')
                 srv = Tap(b, log, 'A')
+                # who is at the two ends (for harness/lifetap.py): connect() runs in the requesting provider's thread
+                link['tapR'], link['tapA'], link['requester_thread'] = self._tap, srv, threading.current_thread()
 
                 def serve():
                     try:
